@@ -280,9 +280,19 @@ def execute(case):
                         w.pats[key] = Pattern(lines=2, tracks=2)
                         w.powner[key] = None
                         items.append(("p", key))
+                # the same object may be listed twice in one list: the second mention is a no-op
+                if op.get("dup") and items:
+                    first_m = next((it for it in items if it[0] == "m"), None)
+                    if first_m is not None:
+                        items.append(first_m)
+                        probes["iadd_list_with_repeated_module"] = probes.get("iadd_list_with_repeated_module", 0) + 1
                 p += [w.mods[kk] if t == "m" else w.pats[kk] for t, kk in items]
+                done_m = set()
                 for t, kk in items:
                     if t == "m":
+                        if kk in done_m:
+                            continue
+                        done_m.add(kk)
                         model_attach(w, pi, kk)
                         w.mowner[kk] = pi
                     else:
@@ -372,6 +382,16 @@ def execute(case):
                         except rv.errors.ModuleOwnershipError:
                             if note.module != old:
                                 violations.append(_v("refusal_changes_nothing", after="note_mod_set_free", detail={"op": i}))
+            elif k == "bulk_new":
+                # a large project: several hundred attaches in a row
+                for j in range(op.get("n", 260)):
+                    cls = builder.SIMPLE_TYPES[(op.get("t", 0) + j) % len(builder.SIMPLE_TYPES)]
+                    m = p.new_module(cls)
+                    key = w.key()
+                    w.mods[key] = m
+                    w.mowner[key] = pi
+                    model_attach(w, pi, key)
+                probes["project_with_more_than_256_positions"] = probes.get("project_with_more_than_256_positions", 0) + (1 if len(p.modules) > 256 else 0)
             elif k == "wrap":
                 # the project becomes the embedded project of a MetaModule (with some user
                 # controller mappings); it is still a project and the same rules apply to it
@@ -498,6 +518,7 @@ def generate(seed, i, tier="quick"):
         elif k == "iadd_list":
             op["n"] = r.randrange(4)
             op["m"] = r.randrange(1000)
+            op["dup"] = r.random() < 0.4
         elif k == "attach_pattern":
             op.update(kind=r.randrange(4), l=r.randrange(4), t=r.randrange(3), src=r.randrange(100))
         elif k == "newpat":
@@ -509,6 +530,9 @@ def generate(seed, i, tier="quick"):
         elif k == "wrap":
             op["v"] = r.getrandbits(50)
         ops.append(op)
+    if r.random() < 0.03:
+        # swarm: sizes - a few runs grow one project past 256 positions
+        ops.insert(r.randint(1, len(ops)), {"k": "bulk_new", "p": r.randrange(3), "n": r.choice([250, 257, 300]), "t": r.randrange(1000)})
     return {"property": PROPERTY, "world": "owner", "ops": ops}
 
 
